@@ -447,3 +447,153 @@ class SchedEvent:
             me.cond = None
         me.timeout_fired = False
         return self._flag
+
+
+class SchedLock:
+    """Drop-in for threading.Lock / RLock objects found in the library's module globals (a locked, correctly keyed cache is a
+    perfectly good design): a managed thread that finds the lock taken blocks in LOGICAL time, so that pre-empting its holder
+    in the middle of the critical section cannot deadlock the harness.  Unmanaged threads use the real lock underneath."""
+
+    def __init__(self, reentrant=False):
+        self._real = threading.RLock() if reentrant else threading.Lock()
+        self._reentrant = reentrant
+        self._owner = None
+        self._count = 0
+
+    def _sched(self):
+        s = SchedQueue.current_scheduler
+        return s if s is not None and s.managed() else None
+
+    def acquire(self, blocking=True, timeout=-1):
+        s = self._sched()
+        if s is None:
+            return self._real.acquire(blocking, timeout)
+        me = s.me()
+        s.yield_point("lock-acquire")
+        if self._reentrant and self._owner is me:
+            self._count += 1
+            return True
+        while self._owner is not None:
+            if not blocking:
+                return False
+            me.status = BLOCKED_COND
+            me.cond = lambda: self._owner is None
+            me.may_time_out = timeout is not None and timeout >= 0
+            me.timeout_fired = False
+            try:
+                s._switch(me)
+            finally:
+                me.status = RUNNABLE
+                me.cond = None
+            if me.timeout_fired:
+                me.timeout_fired = False
+                if self._owner is not None:
+                    return False
+        self._owner = me
+        self._count = 1
+        return True
+
+    def release(self):
+        s = self._sched()
+        if s is None and self._owner is None:
+            return self._real.release()
+        self._count -= 1
+        if self._count <= 0:
+            self._owner = None
+            self._count = 0
+
+    def locked(self):
+        return self._owner is not None or (not self._reentrant and self._real.locked())
+
+    def __enter__(self):
+        self.acquire()
+        return self
+
+    def __exit__(self, *a):
+        self.release()
+
+
+class SchedRLock(SchedLock):
+    def __init__(self):
+        super().__init__(reentrant=True)
+
+
+class SchedCondition:
+    """Drop-in for threading.Condition (a deque + condition variable is a perfectly good mailbox): waiting happens in
+    logical time, a timed wait may time out as a scheduling decision.  notify() wakes every waiter (a wake-up without a
+    change of state is allowed: waiters re-check their predicate, as wait_for does)."""
+
+    def __init__(self, lock=None):
+        self._lock = lock if isinstance(lock, SchedLock) else SchedRLock()
+        self._epoch = 0
+        self._realcond = threading.Condition()
+
+    def _sched(self):
+        s = SchedQueue.current_scheduler
+        return s if s is not None and s.managed() else None
+
+    def acquire(self, *a, **k):
+        if self._sched() is None:
+            return self._realcond.acquire(*a, **k)
+        return self._lock.acquire(*a, **k)
+
+    def release(self):
+        if self._sched() is None:
+            return self._realcond.release()
+        return self._lock.release()
+
+    def __enter__(self):
+        self.acquire()
+        return self
+
+    def __exit__(self, *a):
+        self.release()
+
+    def wait(self, timeout=None):
+        s = self._sched()
+        if s is None:
+            return self._realcond.wait(timeout)
+        me = s.me()
+        if self._lock._owner is not me:
+            raise RuntimeError("cannot wait on un-acquired lock")
+        count, self._lock._count, self._lock._owner = self._lock._count, 0, None
+        epoch = self._epoch
+        me.status = BLOCKED_COND
+        me.cond = lambda: self._epoch != epoch
+        me.may_time_out = timeout is not None
+        me.timeout_fired = False
+        try:
+            s._switch(me)
+        finally:
+            me.status = RUNNABLE
+            me.cond = None
+        fired = me.timeout_fired
+        me.timeout_fired = False
+        notified = self._epoch != epoch
+        self._lock.acquire()
+        self._lock._count = count
+        return notified or not fired
+
+    def wait_for(self, predicate, timeout=None):
+        result = predicate()
+        budget = 0
+        while not result:
+            if timeout is not None and budget:
+                break
+            notified = self.wait(timeout)
+            result = predicate()
+            if not notified:
+                budget = 1
+        return result
+
+    def notify(self, n=1):
+        s = self._sched()
+        if s is None:
+            return self._realcond.notify(n)
+        self._epoch += 1
+        s.last_progress = s.steps
+
+    def notify_all(self):
+        self.notify()
+
+    notifyAll = notify_all
